@@ -14,3 +14,5 @@ for id in "$@"; do
   echo "== check $id (quick) with patch"; (cd /verif && ./check $id --tier quick 2>&1 | tee /root/spike/seed_last.log | grep -E "VIOLATION|obligations|DISAGREE" | head -8; echo "known-finding lines: $(grep -c KNOWN-FINDING /root/spike/seed_last.log)")
 done
 git -C /repo checkout -- . ; git -C /repo status --short | grep -v egg-info
+# the checks above rewrote evidence/*.json for the patched tree: restore the committed (clean-tree) evidence
+git -C /verif checkout -- evidence/ 2>/dev/null
